@@ -10,7 +10,9 @@ import os, json, struct, collections, time
 import vf
 
 PROP = "C13"
-THEOREMS = ["dec_terminates", "dec_panic_only_capacity", "dec_no_panic", "dec_alloc_linear", "dec_depth_bounded", "guard_transparent", "guard_only_removes",
+THEOREMS = ["dec_terminates", "dec_panic_only_capacity", "dec_no_panic", "dec_alloc_linear", "dec_depth_bounded",
+            "dec_no_panic_any_guarded", "dec_alloc_linear_any_guarded", "dec_depth_bounded_any_guarded",
+            "guard_transparent", "guard_only_removes",
             "dec_no_panic_refuted", "dec_alloc_linear_refuted", "dec_depth_bounded_refuted", "repo_cfg_known",
             "wsc_read_no_panic", "wsc_read_exact"]
 PRE = ("From Coq Require Import List NArith ZArith.\nFrom Echo Require Import Base.Bytes Model.CborPA Model.WscReadPA.\n"
@@ -332,10 +334,13 @@ def hexs(b):
     return b.hex() if b else "-"
 
 
-def gen_abi_small(rng, n):
+def gen_abi_small(rng, n, adv_cap=None):
     """Inputs <= MODEL_MAX for the model-tied decoder: (kind, bytes)."""
     out = []
-    for b in adversarial_cbor():
+    adv = adversarial_cbor()
+    if adv_cap and len(adv) > adv_cap:
+        adv = rng.sample(adv, adv_cap)      # quick tier: a seeded sample; thorough runs the whole set
+    for b in adv:
         out.append(("adversarial", b))
     for f in GOOD_FLOATS + BAD_FLOATS:
         out += [("float", f), ("float", b"\x81" + f), ("float", f[:-1])]
@@ -539,8 +544,9 @@ def run(tier, seed, replay=None):
     else:
         for ln in vf.load_corpus(PROP):
             cases.append(ln); kinds.append("corpus")
-        n_small = 3000 if tier == "quick" else 30000
-        for k, b in gen_abi_small(r.rng, n_small):
+        # model evaluation costs ~0.08 CPU-s per case: quick keeps ~1500 abi-cbor + <= 700 wsc-read model cases
+        n_small = 1500 if tier == "quick" else 30000
+        for k, b in gen_abi_small(r.rng, n_small, 500 if tier == "quick" else None):
             cases.append(f"dec=abi-cbor in={hexs(b)}"); kinds.append(k)
         if tier == "thorough":
             # exhaustive small universe: every input of at most two bytes, model vs implementation
@@ -548,7 +554,7 @@ def run(tier, seed, replay=None):
                 for y in range(256):
                     cases.append(f"dec=abi-cbor in={bytes([x, y]).hex()}"); kinds.append("exhaustive-2")
         if "wsc-read" in decoders:
-            for k, b in gen_wsc_read(r.rng, 1200 if tier == "quick" else 12000):
+            for k, b in gen_wsc_read(r.rng, 500 if tier == "quick" else 12000):
                 cases.append(f"dec=wsc-read in={hexs(b)}"); kinds.append(k)
         n_gen = 1200 if tier == "quick" else 8000
         for dname in decoders:
@@ -593,6 +599,8 @@ def run(tier, seed, replay=None):
     # ---- P4b: WSC section reader vs Model/WscReadPA.v (base alignment reported by the harness)
     wtied = [i for i, l in enumerate(impl) if field(l, "dec") == "wsc-read" and field(l, "class") == "value"
              and field(l, "val").startswith("base:")]
+    if tier == "quick" and len(wtied) > 700:
+        wtied = sorted(r.rng.sample(wtied, 700))
     wdiff = 0
     for i, l in enumerate(impl):
         if field(l, "dec") == "wsc-read" and field(l, "class") not in ("value", "error"):
@@ -673,18 +681,16 @@ def run(tier, seed, replay=None):
     return r.finish()
 
 
-# Not yet registered: on the unchanged tree ./check C13 exits 1 with the F6 findings (abi-cbor:capacity-overflow,
-# abi-cbor:huge-alloc, abi-cbor:deep-nesting [, abi-cbor:timeout], abi-elog:huge-alloc).  Rename to MANIFEST once the guard
-# patch (corpus/C13/zz-f6-guard.patch.txt) is committed and Model/CborPA.v says `cfg_repo := cfg_guarded`, or the signatures
-# are listed in known_findings.jsonl.
-MANIFEST_WHEN_FIXED = {
+# F6 (abi-cbor:capacity-overflow / huge-alloc / deep-nesting) and abi-elog:huge-alloc are fixed in /repo (65efcf1, 8fdadfb);
+# Model/CborPA.v: cfg_repo := cfg_guarded.  The oracle signatures stay armed.
+MANIFEST = {
     "category": "proof",
     "text": ("Coq theorems (no axioms) over a panic-, allocation- and depth-aware executable model of the ABI canonical CBOR decoder "
              "(echo-wasm-abi canonical.rs::decode_value: every slice index, usize addition and Vec::with_capacity is a checked step "
              "that can yield Panic; live heap bytes and recursion depth are meters): for EVERY byte string the decoder terminates, "
              "never reaches an index/arithmetic/capacity panic, never holds more than 66 heap bytes per input byte and never recurses "
              "deeper than the nesting limit + 1; the element-budget/depth guard neither rejects nor adds any accepted value "
-             "(guard_transparent, guard_only_removes); the pre-guard decoder is refuted on all three counts by concrete witnesses. A second "
+             "(guard_transparent, guard_only_removes); the decoder before the guard (/repo < 65efcf1) is refuted on all three counts by concrete witnesses that are replayed on every run. A second "
              "small model proves the WSC section reader (read_bytes/read_slice) panic-free and exact for every offset/count. Both models "
              "are tied to /repo by running them (vm_compute) and the real code on the same inputs: class, error kind, decoded value and the "
              "measured peak heap bytes (counting allocator) must agree. Every other decoder / reader / host entry point (55 entry points: "
